@@ -251,8 +251,7 @@ impl EliasFano {
     /// ```
     #[inline(always)]
     pub fn binsearch_range(&self, range: Range<usize>, val: usize) -> Option<usize> {
-        // TODO(kampersanda): Bound check.
-        if range.is_empty() {
+        if range.is_empty() || self.len() < range.end {
             return None;
         }
 
